@@ -12,7 +12,13 @@ CHECKS = {
               "listing is a permutation of the structural enumeration of the tree (each feature exactly once), lookup by "
               "name, parent/children/root, every relation with 0<=min<=max<=n in exactly one class that is a function of "
               "(min,max,n) only, every filtered listing = filter of the full listing by what the classification implies. "
-              "The model is tied to /repo by differential execution (suite Q) on exhaustive small and random models; a "
+              "Construction (\"built through the public constructors\"): a heap model of feature objects and the calls that link "
+              "them (Feature(...), add_relation, del relations[k], Relation.add_child, parent assignment); along every run of "
+              "calls that respect their guards every reachable state is linked (a relation's parent is its holder, every child's "
+              "parent pointer is that holder, also after a subtree was moved), and on linked objects the pointer-following "
+              "predicates (get_parent, is_root, Feature.is_mandatory / is_optional) equal the holding relation's. "
+              "The model is tied to /repo by differential execution (suite Q on exhaustive small and random models, suite L on "
+              "random call sequences, comparing the object graph by identity); a "
               "Python oracle written from the property text decides concrete violations."),
         note=("Coq kernel; extraction + OCaml driver; the harness; hand-written model of feature_model.py validated only on "
               "the generated inputs; no axioms (Print Assumptions: closed under the global context)"),
@@ -179,7 +185,9 @@ CHECKS = {
               "they accept: the returned pointer-annotated model satisfies [ptr_wf] (root parentless; every feature's parent, every "
               "relation's parent and every attribute's owner is the node where it sits) and every constraint AST has the operands "
               "its operator needs (UVL under the grammar-guaranteed hypothesis that no binary node carries NOT; the statement without "
-              "it is refuted in the development); FeatureIDE relations are never empty. The back pointers of the implementation's "
+              "it is refuted in the development); no reader returns an empty relation (JSON, Glencoe, FeatureIDE, FaMa: for every document, "
+              "three of them since the fix: commits that made the readers reject childless relations; UVL, AFM: under the hypothesis that the parse "
+              "tree has no empty group, which the grammars guarantee, the harness asserts on every tree and the development shows necessary). The back pointers of the implementation's "
               "result are dumped and compared with the reader models on every document of the reader suites; the oracle walks the "
               "live object graph. Open findings (flamapy.core pretty_str on one-argument aggregates; names starting with an apostrophe) are reproduced by suite R-known-consumers and printed as KNOWN-FINDING."),
         note=("Coq kernel; extraction/driver; harness dumper of back pointers (public attributes only); external parsers as in "
